@@ -463,6 +463,24 @@ func c19Siblings(c *Ctx, ms map[string]*fsmx.Machine) {
 			}
 		}
 		r.Check(ok, "C19/R3", "instance-do:state-before-marshal", "the dump returned by Do carries the state the machine ended in", c.Pos(fn.Pos()), "dump.Marshal() reachable without first storing result.State into dump.State")
+		// the dump's state follows the machine only when the machine accepted the event: FSM.do answers a refused event
+		// with an empty response next to the callback's error, and copying its (empty) State would make the instance's
+		// own dump unrestorable
+		mdos := ssax.Calls(fn, false, func(ci ssa.CallInstruction) bool {
+			o := ssax.CalleeObj(ci)
+			return o != nil && o.Name() == "Do" && strings.HasSuffix(ssax.Path(ci.Common().Value), ".machine")
+		})
+		okAcc := len(mdos) == 1 && len(stateStores) > 0
+		if okAcc {
+			ne := ssax.NilErrEdgesOfCall(fn, mdos[0])
+			for _, st := range stateStores {
+				if len(ne) == 0 || ssax.ReachableAvoiding(fn, st, ne, nil) {
+					okAcc = false
+				}
+			}
+		}
+		r.Check(okAcc, "C19/R3", "instance-do:state-only-on-success", "dump.State is updated only when the machine accepted the event", c.Pos(fn.Pos()),
+			"the store of result.State into the dump is reachable although machine.Do returned an error: after an event refused by its callback Dump() yields a dump with an empty State that FromDump cannot restore")
 		// a dump that could not be produced must not be handed out with a nil error (the node would persist it): on the
 		// failure edge of Marshal the returned error is that failure, or an error known to be non-nil
 		for i, m := range marshals {
